@@ -391,8 +391,37 @@ def d4_layouts(ctx):
                    'asascii[1 + 2 * tmax * len(placesBI) + 2 * placesBB.index(corr):1 + 2 * tmax * len(placesBI) + 2 * placesBB.index(corr) + 2]'])
     ctx.check(rule, key + '-slices', vals == want, 'correlator k starts at 1 + 2 tmax k (after the configuration number), boundary-to-boundary ones after all time dependent ones', 'slices %s' % vals)
     t = unparse(f)
-    ok = 'corrres[i % 2].append(tmpcorr[i])' in t and 'realsamples[repnum][t].append(corrres[0][t])' in t and 'imagsamples[repnum][t].append(corrres[1][t])' in t
-    ctx.check(rule, key + '-re-im', ok, 'even entries real, odd entries imaginary', 're/im de-interleaving differs')
+    # the statements that distribute one record (tmpcorr) over realsamples / imagsamples are plain list code: they are evaluated on a
+    # record of distinct tokens (lengths 2, 4, 6) and must put entry 2t into realsamples[rep][t] and entry 2t+1 into imagsamples[rep][t]
+    dist = None
+    for owner_blk in [b_ for n_ in walk(f) for fld_ in ('body', 'orelse') for b_ in [getattr(n_, fld_, None)] if isinstance(b_, list)]:
+        idx_ = [i_ for i_, st_ in enumerate(owner_blk) if any(isinstance(y, ast.Name) and y.id == 'tmpcorr' and isinstance(y.ctx, ast.Store) for y in walk(st_))]
+        rest = owner_blk[idx_[-1] + 1:] if idx_ else []
+        if rest and any('realsamples' in unparse(st_) for st_ in rest) and any('imagsamples' in unparse(st_) for st_ in rest):
+            cand = [st_ for st_ in rest if any(isinstance(y, ast.Name) and y.id in ('tmpcorr', 'corrres', 'realsamples', 'imagsamples') for y in walk(st_))
+                    or isinstance(st_, (ast.For, ast.Assign, ast.AugAssign, ast.Expr))]
+            if dist is None or sum(len(unparse(x_)) for x_ in cand) < sum(len(unparse(x_)) for x_ in dist):
+                dist = cand         # the innermost block: the siblings that directly follow the extraction of the record
+    if not dist or any(isinstance(y, (ast.Import, ast.ImportFrom, ast.While, ast.With, ast.Try, ast.Global, ast.Return, ast.Raise, ast.FunctionDef, ast.Lambda)) for st_ in dist for y in walk(st_)) \
+            or any(isinstance(y, ast.Attribute) and y.attr not in ('append', 'extend') for st_ in dist for y in walk(st_)):
+        ctx.unrec(rule, key + '-re-im', 'statements distributing a record over realsamples / imagsamples not found (or not plain list code)', m.loc(f))
+    else:
+        import copy as _copy
+        bad = None
+        safe = {'range': range, 'len': len, 'int': int, 'enumerate': enumerate, 'zip': zip, 'list': list, 'divmod': divmod, 'tuple': tuple, 'min': min, 'max': max}
+        try:
+            code = compile(ast.fix_missing_locations(ast.Module(body=[_copy.deepcopy(st_) for st_ in dist], type_ignores=[])), '<re-im>', 'exec')
+            for n_t in (1, 2, 3):
+                rec = ['tok%d' % i_ for i_ in range(2 * n_t)]
+                env = {'__builtins__': safe, 'tmpcorr': list(rec), 'repnum': 1, 'realsamples': [[['old'] for _ in range(n_t)] for _ in range(2)], 'imagsamples': [[['old'] for _ in range(n_t)] for _ in range(2)]}
+                exec(code, env)
+                for tt in range(n_t):
+                    if env['realsamples'][1][tt] != ['old', rec[2 * tt]] or env['imagsamples'][1][tt] != ['old', rec[2 * tt + 1]] or env['realsamples'][0][tt] != ['old']:
+                        bad = (n_t, tt, env['realsamples'][1][tt][1:], env['imagsamples'][1][tt][1:])
+            ctx.check(rule, key + '-re-im', bad is None, 'entry 2t of a record is the real part, entry 2t+1 the imaginary part of timeslice t (evaluated on records of 1..3 timeslices)',
+                      'for a record of %d timeslices, timeslice %d receives real part %s and imaginary part %s instead of entries %d / %d of the record' % (bad + (2 * bad[1], 2 * bad[1] + 1)) if bad else '', m.loc(dist[0]))
+        except Exception as ex_:
+            ctx.unrec(rule, key + '-re-im', 'cannot evaluate the distribution statements: %r' % ex_, m.loc(dist[0]))
     ok = 'cnfg = asascii[0]' in t
     ctx.check(rule, key + '-cfg', ok, 'configuration number is the first item of the record', 'cfg extraction differs')
 
@@ -557,6 +586,9 @@ def run(ctx):
 
 
 SELFTEST = [
+    ('re-im-swapped', 'pyerrors/input/openQCD.py', '                        realsamples[repnum][t].append(corrres[0][t])', '                        realsamples[repnum][t].append(corrres[1][t])', 'C17-D4'),
+    ('benign-re-im-strided', 'pyerrors/input/openQCD.py', '                    corrres = [[], []]\n                    for i in range(len(tmpcorr)):\n                        corrres[i % 2].append(tmpcorr[i])\n', '                    corrres = [tmpcorr[0::2], tmpcorr[1::2]]\n', 'BENIGN'),
+    ('re-im-strided-off', 'pyerrors/input/openQCD.py', '                    corrres = [[], []]\n                    for i in range(len(tmpcorr)):\n                        corrres[i % 2].append(tmpcorr[i])\n', '                    corrres = [tmpcorr[0::2], tmpcorr[0::2]]\n', 'C17-D4'),
     ('suffix-by-rstrip', 'pyerrors/input/hadrons.py', 'n.replace(".h5", "")', 'n.rstrip(".h5")', 'C17-D5'),
     ('cosort-after-key-sorted', 'pyerrors/input/openQCD.py', "    names = [name for _, name in sorted(zip(files, names), key=lambda pair: pair[0])]\n    files = sorted(files)\n", "    files = sorted(files)\n    names = [name for _, name in sorted(zip(files, names), key=lambda pair: pair[0])]\n", 'C17-D1'),
     ('fix-reverted-rwms', 'pyerrors/input/openQCD.py', "        rep_names = names\n\n    print_err = 0", "        rep_names = names\n\n    rep_names = sort_names(rep_names)\n\n    print_err = 0", 'C17-D1'),
